@@ -16,7 +16,7 @@ RULE = ('Block1014 is driven with position-coded data. Enumerated: every interna
         'block 0..1012, incl. both "trailer pending" and "trailer written"), each reached by two different chunkings, x '
         'next write length (quick: 27 boundary lengths; thorough: every 0..3036), then finalise. Hypothesis: histories of '
         '1..14 writes (lengths relative to the space left in the block, empty writes included) ended by finalise / '
-        'seek(0) / close, with the invariant "file so far is a valid prefix" after every write. Oracle: whole blocks, @@ '
+        'seek(0) / close, with the invariant "what is in the file so far is a block-wise prefix of the data" after every write. Oracle: whole blocks, @@ '
         'trailers, payloads = data then 0x40 fill, at most one all-fill block; equals block_1014 output up to one '
         'all-fill block. Non-trivial = data reaches or crosses a block edge; distinct by (state, path, length) or history digest.')
 ASSUMPTIONS = ['the blocker is finalised exactly once at the end of a history (finalise, seek(0) or close)',
@@ -54,8 +54,10 @@ def run_history(chunks, finaliser='finalise', check_prefix=False):
         off += n
         if check_prefix:
             cur = f.getvalue()
-            if refvbs.payload_of(cur) != POS[:off]:
-                return cur, off, ('prefix-payload', f'after writes {chunks} up to {off} bytes the payload so far differs from the data written')
+            # before finalisation a blocker may hold data back (buffering is its business); what it has put into the file
+            # must be a prefix of the data written so far, laid out in blocks
+            if not POS[:off].startswith(refvbs.payload_of(cur)):
+                return cur, off, ('prefix-payload', f'after writes {chunks} up to {off} bytes the payload already in the file is not a prefix of the data written')
             for i in range(1012, len(cur), 1014):
                 if cur[i:i + 2].strip(b'\x40'):
                     return cur, off, ('prefix-trailer', f'after writes {chunks}: block trailer at {i} is not 0x40')
